@@ -977,9 +977,16 @@ pub fn judge(scn: &Scn, out: &Outcome) -> Vec<Finding> {
     }
 
     // ------------------------------------------------------------------ C18
-    if let Some(p) = scn.solo {
+    // the prober of a solo scenario; in every other scenario on a queue whose
+    // wait strategy needs no notification, every try operation of a managed
+    // thread (its own steps are counted whatever the others do in between)
+    let no_notify = !scn.cfg.fut && matches!(scn.cfg.wait, WaitK::Busy | WaitK::Yield(..));
+    if scn.solo.is_some() || no_notify {
         let kmax = 64 + 16 * v.streams().len() as u32;
-        for e in hist.iter().filter(|e| e.th as usize == p) {
+        for e in hist.iter().filter(|e| match scn.solo {
+            Some(p) => e.th as usize == p,
+            None => e.th != MAIN,
+        }) {
             if !matches!(e.k, OpK::TrySend | OpK::TryRecv | OpK::TryRecvView) {
                 continue;
             }
